@@ -439,12 +439,16 @@ class Renderer:
         m = re.match(r"^\s*impl (\w+) \{", text)
         if m:
             self.current_impl = m.group(1)
-        m = re.match(r"^\s*pub async fn (r#)?(\w+)\(&self, req: (\w+)\)", text)
+        # operation functions, whether written as `async fn` or as `fn .. -> <some future type>`: what is asserted is that the
+        # value they return can be sent to another thread
+        m = re.match(r"^\s*pub (?:async )?fn (r#)?(\w+)\(&self, req: (\w+)\)", text)
         if m and self.current_impl:
             self.methods.append((self.current_impl, (m.group(1) or "") + m.group(2), m.group(3)))
-        m = re.match(r"^\s*pub async fn (r#)?(\w+)\(req: (\w+), credentials", text)
-        if m:
-            self.free_fns.append(((m.group(1) or "") + m.group(2), m.group(3)))
+        m2 = re.match(r"^\s*pub (?:async )?fn (r#)?(\w+)\(req: (\w+), credentials", text)
+        if m2:
+            self.free_fns.append(((m2.group(1) or "") + m2.group(2), m2.group(3)))
+        if re.match(r"^\s*pub (?:async |const |unsafe )*fn ", text) and not m and not m2 and ev.fn.endswith(("write_soap_action", "write_async_soap_call")):
+            self.problems.append(("operation-signature", ev.site, text.strip()[:120]))
 
     def roles(self, ev):
         """hole index -> 'type-ref' | 'module-ref' for references to generated user types (bound to the fixture)"""
